@@ -494,13 +494,75 @@ theorem splice_inv (l l' : OrdList) (hI : l.Inv) (m i : Nat) (hA : Around l.node
         exact getD_splice_eq hin
       rwa [e] at h
 
+/-- the assertion at the entry of `find_pos_interval` never fails for a valid release -/
+theorem intervalAssertFails_valid (l : OrdList) (hI : l.Inv) (m : Nat) (hm : m ∉ l.nodes)
+    (_hmB : m + l.ns ≤ l.B ∨ l.E + 8 ≤ m) : l.intervalAssertFails m = false := by
+  obtain ⟨i, hi, hldp, hld⟩ := hI.cursor
+  obtain ⟨_, eldp⟩ := posOf_some hldp
+  obtain ⟨_, eld⟩ := posOf_some hld
+  have hasc := hI.asc
+  have hpx := hI.proxies
+  have hns := hI.nsPos
+  unfold OrdList.intervalAssertFails
+  simp only [hld]
+  by_cases hn : l.nodes.length = 0
+  · simp only [hn, ↓reduceIte]
+    have hE : l.addr (0 + 1) = l.E := by have := addr_end l; rwa [hn] at this
+    rw [hE, addr_zero]
+    by_cases h1 : l.E > m
+    · rw [if_pos h1]
+    · rw [if_neg h1, if_pos (by omega)]
+  · simp only [hn, ↓reduceIte]
+    have hn1 : 0 < l.nodes.length := by omega
+    have hnl : l.nodes.length - 1 < l.nodes.length := by omega
+    have ha1 : l.addr 1 = l.nodes.getD 0 0 := addr_succ l hn1
+    have han : l.addr l.nodes.length = l.nodes.getD (l.nodes.length - 1) 0 := by
+      have := addr_succ l hnl
+      rwa [show l.nodes.length - 1 + 1 = l.nodes.length by omega] at this
+    rw [ha1, han]
+    have hfm : l.nodes.getD 0 0 ≠ m := fun h => hm (h ▸ getD_mem hn1)
+    have hlm : l.nodes.getD (l.nodes.length - 1) 0 ≠ m := fun h => hm (h ▸ getD_mem hnl)
+    by_cases h1 : l.nodes.getD 0 0 > m
+    · rw [if_pos h1]
+    rw [if_neg h1]
+    by_cases h2 : l.nodes.getD (l.nodes.length - 1) 0 < m
+    · rw [if_pos h2]
+    rw [if_neg h2]
+    by_cases h3 : (decide (l.ldp < m) && decide (m < l.ld)) = true
+    · rw [if_pos h3]
+    rw [if_neg h3]
+    simp only [Bool.and_eq_true, decide_eq_true_eq, not_and] at h3
+    by_cases h4 : (decide (i + 1 = l.nodes.length + 1) || decide (m < l.ld)) = true
+    · rw [if_pos h4]
+      simp only [Bool.or_eq_true, decide_eq_true_eq] at h4
+      have hi0 : i ≠ 0 := by
+        intro h; subst h; rw [addr_succ l hn1] at eld; omega
+      obtain ⟨i', rfl⟩ : ∃ i', i = i' + 1 := ⟨i - 1, by omega⟩
+      rw [addr_succ l (show i' < l.nodes.length by omega)] at eldp
+      have hldpm : l.ldp ≠ m := fun h => hm (by rw [← h, ← eldp]; exact getD_mem (by omega))
+      have hlt : m < l.ldp := by
+        rcases h4 with h4 | h4
+        · have : i' = l.nodes.length - 1 := by omega
+          rw [this] at eldp; omega
+        · have := h3; omega
+      simp only [Bool.not_eq_eq_eq_not, Bool.not_false, Bool.and_eq_true, decide_eq_true_eq]
+      exact ⟨by omega, hlt⟩
+    rw [if_neg h4]
+    simp only [Bool.or_eq_true, decide_eq_true_eq, not_or] at h4
+    have hin : i < l.nodes.length := by omega
+    rw [addr_succ l hin] at eld
+    have hldm : l.ld ≠ m := fun h => hm (by rw [← h, ← eld]; exact getD_mem hin)
+    rw [if_pos (show m > l.ld by omega)]
+    simp only [Bool.not_eq_eq_eq_not, Bool.not_false, Bool.and_eq_true, decide_eq_true_eq]
+    exact ⟨by omega, by omega⟩
+
 theorem deallocate_valid' (cfg : Cfg) (l : OrdList) (hI : l.Inv) (m : Nat) (hm : m ∉ l.nodes)
     (hmB : m + l.ns ≤ l.B ∨ l.E + 8 ≤ m) (hm0 : 0 < m) :
     ∃ l', l.deallocate cfg m = .ok l' ∧ l'.nodes = insertAsc m l.nodes ∧ l'.cap = l.cap + 1 ∧ l'.ld = m ∧ l'.Inv := by
   obtain ⟨i, hfp, hA⟩ := findPos_valid' l hI cfg.dblDealloc m hm hmB
   unfold OrdList.deallocate
-  rw [hfp]
-  simp only [ne_eq, not_true_eq_false, if_false]
+  rw [hfp, intervalAssertFails_valid l hI m hm hmB]
+  simp only [Bool.and_false, Bool.false_eq_true, ne_eq, not_true_eq_false, if_false]
   exact ⟨_, rfl, splice_eq_insertAsc hA, rfl, rfl,
     splice_inv l _ hI m i hA hm hmB hm0 rfl rfl rfl rfl rfl rfl rfl⟩
 
